@@ -3,6 +3,7 @@ package all
 
 import (
 	"verif/harness/c04"
+	"verif/harness/c05"
 	"verif/harness/c17"
 )
 
@@ -15,6 +16,11 @@ func reg(pkg, fn string, e Entry) { Registry["verif/harness/"+pkg+"."+fn] = e }
 func init() {
 	reg("c04", "BusRoundTrip", func(a []int64) { c04.BusRoundTrip(int(a[0])) })
 	reg("c04", "PakRoundTrip", func(a []int64) { c04.PakRoundTrip(int(a[0])) })
+	reg("c05", "BusWellFormed", func(a []int64) { c05.BusWellFormed(int(a[0])) })
+	reg("c05", "PakRejection", func(a []int64) { c05.PakRejection(int(a[0])) })
+	reg("c05", "Console", func(a []int64) { c05.Console(int(a[0])) })
+	reg("c05", "BusPages", func(a []int64) { c05.BusPages(int(a[0])) })
+	reg("c05", "PakPages", func(a []int64) { c05.PakPages(int(a[0])) })
 	reg("c17", "UnpackPack", func(a []int64) { c17.UnpackPack() })
 	reg("c17", "PackUnpack", func(a []int64) { c17.PackUnpack() })
 	reg("c17", "MulDiv", func(a []int64) { c17.MulDiv() })
